@@ -1200,6 +1200,7 @@ func (r *run) exec(in Instr) {
 					catch(func() { same = string(recOf(op.New, in.Trim)) == string(ts.ut.GetRecord(so)) })
 				}
 				if !same {
+					r.logf("  #%d next write goes through stale offset %d (current %d)", ts.id, so, off)
 					off = so
 					r.label("write_through_stale_offset")
 				}
@@ -1341,11 +1342,15 @@ func (r *run) doAction(ts *tranState, in Instr) {
 	r.nAction++
 	if ref == nil {
 		if r.checkTriggers(ts, fmt.Sprintf("transaction #%d %q", ts.id, stmt), trigBefore, chs, err != "") {
-			if !strings.Contains(err, trigBoom) {
-				r.violate(fmt.Sprintf("transaction #%d: %q: a trigger threw but the statement returned %q", ts.id, stmt, err), "C44")
+			if strings.Contains(err, trigBoom) {
+				r.abortAfterTrigger(ts)
+				return
 			}
-			r.abortAfterTrigger(ts)
-			return
+			if err == "" {
+				r.violate(fmt.Sprintf("transaction #%d: %q: succeeded although a trigger must have thrown", ts.id, stmt), "C44")
+			}
+			// failed for another reason before the trigger ran: rolled back below
+			r.label("trigger_throw_preempted_by_other_failure")
 		}
 	}
 	if err != "" || ref != nil {
@@ -1606,11 +1611,16 @@ func (r *run) applyWrite(ts *tranState, in Instr, op *logOp, off uint64) bool {
 	if ref == nil {
 		if r.checkTriggers(ts, fmt.Sprintf("transaction #%d %v", ts.id, op), trigBefore, chs, err != "") {
 			// the model says a trigger throws during this operation
-			if !strings.Contains(err, trigBoom) {
-				r.violate(fmt.Sprintf("transaction #%d: %v: a trigger threw but the operation returned %q", ts.id, op, err), "C44")
+			if strings.Contains(err, trigBoom) {
+				r.abortAfterTrigger(ts)
+				return false
 			}
-			r.abortAfterTrigger(ts)
-			return false
+			if err == "" {
+				r.violate(fmt.Sprintf("transaction #%d: %v: succeeded although its trigger must have thrown", ts.id, op), "C44")
+			}
+			// refused or failed for another reason before the trigger ran
+			// (conflict abort, unpredicted refusal): handled as a refusal below
+			r.label("trigger_throw_preempted_by_other_failure")
 		}
 	}
 	if err == "" {
@@ -1904,6 +1914,10 @@ func RunProgram(p Program, cfg Config) (viol *Violation, st Stats) {
 	}
 	curDomain = p.Domain
 	defer func() { curDomain = nil }()
+	// a fresh interpreter thread per case: a trigger that throws leaves values
+	// on the thread's stack (nothing unwinds it outside the interpreter), and
+	// after ~1500 cases in one process the 1024-slot stack overflowed
+	thread = &core.Thread{}
 	oldAge := db19.MaxAge
 	db19.MaxAge = p.MaxAge
 	db19.VerifAbortT1(true)
